@@ -1,15 +1,37 @@
 """C20 — the fields pipe returns a faithful projection of each stored document.
 
 Spec: ProjectCases.tla (reference Project over field-name sets; sanity invariants KeepsOnlyOwnFields,
-AllowExceptPartition); TLC enumerates every corpus of MaxDocs documents over the field names {a,b,c}
-x every field list of <=3 names over {a,b,c,z} (repeats, absent names) x allow/except.  The driver
-`project` gives every field a value from a palette of JSON shapes (seeded rotation) and compares the
-store's Fetch with FieldsFilter and the proxy's `| fields` pipe structurally with the reference."""
+AllowExceptPartition; EntryFaithful: the entry points hand the client's list to the store verbatim and
+the store treats only the empty list as "no filter").  TLC enumerates, for each of four universes of
+field names (plain a/A/b; blank: the empty key and a key of white space only; affix: a padded name and
+a name containing a list separator; inner: a path-like name and a name with white space inside), every
+corpus of MaxDocs documents x every field list of <=3 names over the universe plus a missing name
+(repeats, absent names) x allow/except, plus the case without a filter.  The driver `project` draws the
+representative of every name class and a value for every field from a palette of JSON shapes (seeded
+rotation) and compares structurally with the reference: the store's Fetch with FieldsFilter, the
+in-process search.Ingestor `| fields` pipe, and the public proxy API of a real proxyapi.Ingestor over
+sockets - Fetch (gRPC grpcV1.Fetch and the HTTP gateway /fetch), Search, ComplexSearch, Export (gRPC)
+and the HTTP gateway /search.  Non-vacuity of EntryFaithful: the sanitising hops dropblank / trim /
+split must violate it, dedupe must not (ProjectCases_<hop>.cfg)."""
 import json
 import os
 import vlib
 
 LEVEL = "model_checking"
+
+
+def _guards(ctx):
+    """EntryFaithful is not vacuous: TLC rejects the designs that clean the client's list."""
+    hops = [("dropblank", True)] if ctx.quick() else [("dropblank", True), ("trim", True), ("split", True), ("dedupe", False)]
+    for hop, must_violate in hops:
+        r = vlib.run_tlc(ctx, "ProjectCases.tla", "ProjectCases_%s.cfg" % hop, timeout=600, quiet=True)
+        if must_violate:
+            if r.violated != "EntryFaithful":
+                raise vlib.Infra("ProjectCases_%s.cfg: EntryFaithful should be violated by the %s hop (got %r)" % (hop, hop, r.violated))
+        else:
+            if r.violated:
+                raise vlib.Infra("TLC: %s violated in ProjectCases_%s.cfg" % (r.violated, hop))
+            vlib.require_tlc_ok(r, "ProjectCases_%s" % hop)
 
 
 def run(ctx):
@@ -19,21 +41,41 @@ def run(ctx):
     if r.violated:
         raise vlib.Infra("TLC: %s violated in ProjectCases.tla" % r.violated)
     vlib.require_tlc_ok(r, "ProjectCases")
-    mism, summ, _ = vlib.run_cases(ctx, drv, ["-seed", str(ctx.seed)], cf, label="project", timeout=3400)
+    _guards(ctx)
+    # cases of one corpus next to each other: every driver process then stores only its share of the corpora
+    with open(cf) as fh:
+        lines = [ln for ln in fh if ln.startswith("{")]
+    keyed = []
+    for ln in lines:
+        c = json.loads(ln)
+        keyed.append((c["u"], json.dumps(c["docs"]), len(c["flt"]["fields"]), ln))
+    keyed.sort(key=lambda t: t[:3])
+    with open(cf, "w") as fh:
+        fh.writelines(t[3] for t in keyed)
+    per_u = {}
+    for t in keyed:
+        per_u[t[0]] = per_u.get(t[0], 0) + 1
+    mism, summ, _ = vlib.run_cases(ctx, drv, ["-seed", str(ctx.seed)], cf, label="project", timeout=3400,
+                                   procs=8, chunk=12000)
     for m in mism:
         ctx.violation("project:%s:%s" % (m.get("path"), (m.get("what") or "")[:30]), m,
                       what="projected document differs from ProjectCases reference: " + str(m.get("what"))[:120])
-    with open(cf) as fh:
-        for i, ln in enumerate(fh):
-            if i % 2503 == 9 and len(ctx.cov["samples"]) < 3:
-                ctx.cov["samples"].append(json.loads(ln))
+    for i in range(9, len(keyed), 2503):
+        if len(ctx.cov["samples"]) < 4:
+            ctx.cov["samples"].append(json.loads(keyed[(i * 7919) % len(keyed)][3]))
     ctx.cov["traces_validated_against_impl"] = summ["cases"]
     ctx.cov["evaluations"] = summ["evals"]
     ctx.cov["distinct_nontrivial"] = summ["nontrivial"]
     ctx.cov["exhaustive"] = True
-    ctx.cov["rule"] = ("case = (field-name sets of MaxDocs documents, field list of 1..3 names over {a,b,c,z} with repeats, allow/except); "
-                       "values from a 22-entry JSON palette (escapes, unicode, numbers in several notations incl. 30-digit and exponent forms, nested containers, "
-                       "null/bool/empty), rotated by VERIF_SEED; two paths (store fetch filter, proxy pipe incl. same ids/order and untouched bytes "
-                       "without a pipe); non-trivial = some document keeps a proper non-empty subset of its fields")
-    ctx.assumptions += ["JSON values are compared structurally, numbers by value (re-encoding may change member order / number spelling)",
-                        "field names are plain ASCII identifiers; top-level fields only (as the property states)"]
+    ctx.cov["cases_per_universe"] = per_u
+    ctx.cov["rule"] = ("case = (universe of field names, field-name sets of MaxDocs documents, field list of 0..3 names over the universe + a missing name "
+                       "with repeats, allow/except); universes: plain {a,A,b}, blank {a, empty key, white-space-only key}, affix {a, padded a, key with a list "
+                       "separator}, inner {a, path-like key, key with inner white space}; representatives inside a class (7 white-space keys, 12 paddings, "
+                       "4 separators, ...) and values from a 23-entry JSON palette (escapes, unicode, numbers in several notations incl. 30-digit and exponent "
+                       "forms, nested containers also with blank keys, null/bool/empty) rotated by VERIF_SEED; keys spelled with JSON escapes, pipe keywords in "
+                       "three cases, names bare / quoted in the grammar's quoting styles; eight paths (store fetch filter, in-process pipe, proxy API Fetch over "
+                       "gRPC and HTTP gateway, proxy API Search / ComplexSearch / Export over gRPC, HTTP gateway search) incl. same ids/order and untouched "
+                       "bytes without a filter; non-trivial = some document keeps a proper non-empty subset of its fields")
+    ctx.assumptions += ["JSON values are compared structurally, numbers by value (re-encoding may change member order / number spelling; the HTTP gateway "
+                        "re-encodes documents as JSON inside its own JSON response)",
+                        "top-level fields only (as the property states); no document has the same key twice"]
